@@ -260,8 +260,8 @@ def _create(case, ctx, run, desc):
     if sorted(sC) != sorted(sA) or any(sC[k] != sA[k] for k in sC if not k.endswith("hashstore.yaml")):
         ctx.violation("client-api-state", f"{d}: directory trees differ after create: {common.snap_diff(sC, sA)}",
                       {"verb": "create"})
-    yC = call(lambda: yaml.safe_load(open(os.path.join(rootC, "hashstore.yaml"))))
-    yA = call(lambda: yaml.safe_load(open(os.path.join(rootA, "hashstore.yaml"))))
+    yC = call(lambda: yaml.safe_load(open(os.path.join(rootC, "hashstore.yaml"), encoding="utf-8")))
+    yA = call(lambda: yaml.safe_load(open(os.path.join(rootA, "hashstore.yaml"), encoding="utf-8")))
     if is_ok(yC) != is_ok(yA) or (is_ok(yC) and yC[1] != yA[1]):
         ctx.violation("client-api-config", f"{d}: hashstore.yaml differs: {yC[1] if is_ok(yC) else yC[1]} vs "
                       f"{yA[1] if is_ok(yA) else yA[1]}", {"verb": "create"})
